@@ -36,9 +36,19 @@
      Decode(api, bytes)     :108  (after fix a05beeb) decode into a fresh ds.Set, then AddAll(decoded)   -> Write (SApply (e, 0));
                                   a failing decode changes nothing (no operation).  The pinned code wrote the elements
                                   under the value mutex only ([decode_step_pinned] below, refuted in ApiProofs.v)
-   Out of scope (reason): SubtractReactive, DerivedSet.InheritFrom, DerivedVariable (several objects wired together: C14),
-   Get/Read/ReadOnly/WasTriggered/Encode (readers). *)
-From Coq Require Import List Bool Arith NArith.
+     DerivedSet.InheritFrom(srcs...) :296  per source a subscriber of the source (OnUpdate without zero trigger) keeping
+                                  [sourceElements]; every delivered mutation - and, on un-inherit, "delete sourceElements" -
+                                  goes through inheritMutations :317 = the WRITER of the derived set whose section under
+                                  the value mutex (applyInheritedMutations :335) turns the mutation into the net mutation
+                                  m by the occurrence counts (ds.SetArithmetic; the bookkeeping itself is C14's) and
+                                  reports value.Apply(m), always notifying              -> Write (KInherit m)
+                                  A DerivedSet is a full Set: the same object is also written directly (Add .. Replace).
+     SubtractReactive(others...) :209  result set s; r.OnUpdate(m => s.Compute(const arithmetic.Add(m))), others:
+                                  s.Compute(const arithmetic.Subtract(m))                -> Write (KCompute (fun _ => net))
+                                  [wired_program] below is the sequential composition used by the correspondence.
+   Out of scope (reason): WHICH net mutation the occurrence counts yield (DerivedSet / SubtractReactive contents = C14),
+   DerivedVariable (C14), Get/Read/ReadOnly/WasTriggered/Encode (readers). *)
+From Coq Require Import List Bool Arith NArith ZArith.
 From Verif.C13_Reactive Require Import Model.
 Import ListNotations.
 
@@ -164,13 +174,15 @@ Inductive scall :=
 | KApply (m : N * N)            (* Apply; Add/AddAll = (e, 0); Delete/DeleteAll = (0, e) *)
 | KCompute (f : N -> N * N)
 | KReplace (e : N)
-| KDecode (e : N).              (* Decode of the encoding of the elements e (after fix a05beeb) *)
+| KDecode (e : N)               (* Decode of the encoding of the elements e (after fix a05beeb) *)
+| KInherit (m : N * N).         (* derivedSet.inheritMutations whose occurrence counts yield the net mutation m *)
 Definition scall_op (c : scall) : sop :=
   match c with
   | KApply m => SApply m
   | KCompute f => SCompute f
   | KReplace e => SReplace e
   | KDecode e => SApply (e, 0%N)
+  | KInherit m => SCompute (fun _ => m)   (* reports value.Apply(m), notifies even when nothing changed *)
   end.
 Definition sapi_sch := map_sch scall_op.
 
@@ -183,3 +195,151 @@ Definition decode_step_pinned (s : state N (N * N) sop (N * N)) (e : N) : option
   | None => Some (mkSt N (N * N) sop (N * N) (N.lor (val s) e) (uid s) (ord s) (vm s) (reg s) (cbs s) (thr s) (hist s) (rets s))
   | Some _ => None
   end.
+
+(* ---------------- several sets wired together: the write path of a DerivedSet / of the result of SubtractReactive ------- *)
+(* ds.setArithmetic (ds/set_impl.go:351-408) with the default threshold 1: occurrence count per element; an element enters
+   the net mutation when its count reaches 1 (rising) / 0 (falling), cancelling an opposite entry of the same call. *)
+Definition bitN (i : nat) : N := N.shiftl 1 (N.of_nat i).
+Definition bits_of (m : N) : list nat := filter (N.testbit_nat m) (seq 0 (N.size_nat m)).
+Definition acc := ((nat -> Z) * (N * N))%type.
+Definition coll (increase : bool) (st : acc) (i : nat) : acc :=
+  let '(c, (a, d)) := st in
+  let v := (c i + (if increase then 1 else -1))%Z in
+  let c' := updf c i v in
+  if Z.eqb v (if increase then 1 else 0)%Z then
+    if increase
+    then (if N.testbit_nat d i then (c', (a, N.ldiff d (bitN i))) else (c', (N.lor a (bitN i), d)))
+    else (if N.testbit_nat a i then (c', (N.ldiff a (bitN i), d)) else (c', (a, N.lor d (bitN i))))
+  else (c', (a, d)).
+Definition arith_add (c : nat -> Z) (m : N * N) : acc :=
+  fold_left (coll false) (bits_of (snd m)) (fold_left (coll true) (bits_of (fst m)) (c, (0%N, 0%N))).
+Definition arith_sub (c : nat -> Z) (m : N * N) : acc :=
+  fold_left (coll true) (bits_of (snd m)) (fold_left (coll false) (bits_of (fst m)) (c, (0%N, 0%N))).
+
+(* a sequential script over the wired objects: sources (plain reactive Sets) and the target set *)
+Inductive wop (C : Type) :=
+| WSrc (i : nat) (c : C)                 (* a write call on source i *)
+| WDir (o : op C)                        (* a call on the target itself: direct write / subscribe / unsubscribe *)
+| WInherit (h : nat) (srcs : list nat)   (* handle h := target.InheritFrom(sources...) *)
+| WUninherit (h : nat).                  (* the unsubscribe function of handle h *)
+Arguments WSrc {C}.
+Arguments WDir {C}.
+Arguments WInherit {C}.
+Arguments WUninherit {C}.
+Definition map_wop {A B} (f : A -> B) (o : wop A) : wop B :=
+  match o with WSrc i c => WSrc i (f c) | WDir o' => WDir (map_op f o') | WInherit h l => WInherit h l | WUninherit h => WUninherit h end.
+
+Inductive wkind := WDerived | WSubtract (nothers : nat).   (* NewDerivedSet() / source0.SubtractReactive(source1..n) *)
+Record inh := mkInh { i_h : nat; i_src : nat; i_elems : N; i_live : bool }.   (* one source of one InheritFrom call *)
+Record wst := mkWst { ws_src : nat -> N; ws_cnt : nat -> Z; ws_inh : list inh }.
+
+(* a write call on a source: its new contents and the mutation its subscribers are told (None: nobody is called) *)
+Definition src_write (c : scall) (s : N) : N * option (N * N) :=
+  match s_wskip (scall_op c) with
+  | Some _ => (s, None)
+  | None => let r := s_wr (scall_op c) s in (w_new r, w_delta r)
+  end.
+
+(* source i tells mutation d: every live inheritance of i (registration order) applies it to its sourceElements and
+   hands the applied part to inheritMutations *)
+Fixpoint deliver (i : nat) (d : N * N) (l : list inh) (c : nat -> Z) : list inh * (nat -> Z) * list (N * N) :=
+  match l with
+  | [] => ([], c, [])
+  | e :: r =>
+      if i_live e && Nat.eqb (i_src e) i then
+        let '(c1, m) := arith_add c (s_applied (i_elems e) d) in
+        let '(r', c2, ms) := deliver i d r c1 in
+        (mkInh (i_h e) (i_src e) (s_apply (i_elems e) d) true :: r', c2, m :: ms)
+      else
+        let '(r', c2, ms) := deliver i d r c in (e :: r', c2, ms)
+  end.
+(* InheritFrom(srcs...): per source OnUpdate without zero trigger: the contents, when not empty, arrive as "added" *)
+Fixpoint inherit_all (h : nat) (src : nat -> N) (srcs : list nat) (c : nat -> Z) : list inh * (nat -> Z) * list (N * N) :=
+  match srcs with
+  | [] => ([], c, [])
+  | i :: r =>
+      if s_nonzero (src i) then
+        let '(c1, m) := arith_add c (src i, 0%N) in
+        let '(es, c2, ms) := inherit_all h src r c1 in
+        (mkInh h i (src i) true :: es, c2, m :: ms)
+      else
+        let '(es, c2, ms) := inherit_all h src r c in
+        (mkInh h i 0%N true :: es, c2, ms)
+  end.
+(* the function returned by InheritFrom: per source unsubscribe, then inheritMutations(delete sourceElements); a second
+   call repeats the deletions (sourceElements is not cleared) *)
+Fixpoint uninherit_all (h : nat) (l : list inh) (c : nat -> Z) : list inh * (nat -> Z) * list (N * N) :=
+  match l with
+  | [] => ([], c, [])
+  | e :: r =>
+      if Nat.eqb (i_h e) h then
+        let '(c1, m) := arith_add c (0%N, i_elems e) in
+        let '(r', c2, ms) := uninherit_all h r c1 in
+        (mkInh (i_h e) (i_src e) (i_elems e) false :: r', c2, m :: ms)
+      else
+        let '(r', c2, ms) := uninherit_all h r c in (e :: r', c2, ms)
+  end.
+
+(* one script step: the new wiring state and the operations it issues on the TARGET set; the flag marks the calls made
+   by the script itself (their return value is observable) *)
+Definition inherited (ms : list (N * N)) : list (op scall * bool) := map (fun m => (Write (KInherit m), false)) ms.
+Definition wstep (k : wkind) (st : wst) (o : wop scall) : wst * list (op scall * bool) :=
+  match o with
+  | WDir o' => (st, [(o', true)])
+  | WSrc i c =>
+      let '(s', od) := src_write c (ws_src st i) in
+      let src' := updf (ws_src st) i s' in
+      match od with
+      | None => (mkWst src' (ws_cnt st) (ws_inh st), [])
+      | Some d =>
+          match k with
+          | WDerived =>
+              let '(l', c', ms) := deliver i d (ws_inh st) (ws_cnt st) in (mkWst src' c' l', inherited ms)
+          | WSubtract n =>
+              if Nat.leb i n then
+                let '(c', m) := (if Nat.eqb i 0 then arith_add else arith_sub) (ws_cnt st) d in
+                (mkWst src' c' (ws_inh st), [(Write (KCompute (fun _ => m)), false)])
+              else (mkWst src' (ws_cnt st) (ws_inh st), [])
+          end
+      end
+  | WInherit h srcs =>
+      let '(es, c', ms) := inherit_all h (ws_src st) srcs (ws_cnt st) in
+      (mkWst (ws_src st) c' (ws_inh st ++ es), inherited ms)
+  | WUninherit h =>
+      let '(l', c', ms) := uninherit_all h (ws_inh st) (ws_cnt st) in
+      (mkWst (ws_src st) c' l', inherited ms)
+  end.
+Fixpoint wsteps (k : wkind) (st : wst) (ops : list (wop scall)) : wst * list (op scall * bool) :=
+  match ops with
+  | [] => (st, [])
+  | o :: r => let '(st1, l1) := wstep k st o in let '(st2, l2) := wsteps k st1 r in (st2, l1 ++ l2)
+  end.
+(* SubtractReactive subscribes at construction: the non-empty contents of source 0 are added, those of the others subtracted *)
+Fixpoint subtract_init (src : nat -> N) (is : list nat) (c : nat -> Z) : (nat -> Z) * list (op scall * bool) :=
+  match is with
+  | [] => (c, [])
+  | i :: r =>
+      if s_nonzero (src i) then
+        let '(c1, m) := (if Nat.eqb i 0 then arith_add else arith_sub) c (src i, 0%N) in
+        let '(c2, l) := subtract_init src r c1 in (c2, (Write (KCompute (fun _ => m)), false) :: l)
+      else subtract_init src r c
+  end.
+Definition wired_program (k : wkind) (s0s : list N) (ops : list (wop scall)) : wst * list (op scall * bool) :=
+  let src := fun i => nth i s0s 0%N in
+  let '(c0, l0) := match k with
+                   | WDerived => (fun _ => 0%Z, [])
+                   | WSubtract n => subtract_init src (seq 0 (Datatypes.S n)) (fun _ => 0%Z)
+                   end in
+  let '(st, l) := wsteps k (mkWst src c0 []) ops in (st, l0 ++ l).
+
+(* a write path that reports the REQUESTED mutations of Compute / inheritMutations instead of what value.Apply changed
+   (refuted in ApiProofs.v: the class of defect the wired family exists for) *)
+Definition s_wr_requested (w : sop) (s : N) : wres N (N * N) (N * N) :=
+  match w with
+  | SCompute f => mkW (s_apply s (f s)) (Some (f s)) true (f s)
+  | _ => s_wr w s
+  end.
+Definition s_run_requested := run N (N * N) sop (N * N) s_nonzero s_initD s_wr_requested s_wskip.
+(* the schedules whose calls are all issued by a wired script *)
+Definition drawn_from (prog : list (op scall * bool)) (sch : list (nat * option (op scall))) : Prop :=
+  forall t o, In (t, Some o) sch -> In o (map fst prog).
